@@ -206,8 +206,8 @@ func c18Range(c *kit.Ctx, m *mbModel, r *kit.Rule) {
 				}
 				ip := m.reqInterp(code, -1, map[int64]int64{0: rq.a, 2: rq.n})
 				argUnknown := false
-				ip.OnCall = func(call *ast.CallExpr, args []kit.IVal) (string, []kit.IVal) {
-					if _, _, ok := m.providerCall(f, call); !ok {
+				m.hook(ip, func(call *ast.CallExpr, args []kit.IVal) (string, []kit.IVal) {
+					if _, _, ok := m.providerCall(m.fnOf(call), call); !ok {
 						return "", nil
 					}
 					if len(args) == 0 || args[0].K != 'i' {
@@ -215,7 +215,7 @@ func c18Range(c *kit.Ctx, m *mbModel, r *kit.Rule) {
 						return "P@?", nil
 					}
 					return fmt.Sprintf("P@%d", args[0].I), nil
-				}
+				})
 				ip.MaxSteps = 2000000
 				res := ip.Run()
 				c.AddValuations(1)
@@ -232,7 +232,7 @@ func c18Range(c *kit.Ctx, m *mbModel, r *kit.Rule) {
 					if e.Ret == nil {
 						continue
 					}
-					if _, _, isExc := m.excReturn(f, e.Ret); isExc {
+					if _, _, isExc := m.exitExc(e); isExc {
 						continue
 					}
 					if len(e.Ret.Results) == 0 || !kit.IsNilIdent(info, e.Ret.Results[len(e.Ret.Results)-1]) {
@@ -243,10 +243,10 @@ func c18Range(c *kit.Ctx, m *mbModel, r *kit.Rule) {
 						decided = true
 						break
 					}
-					if strings.Join(e.Trace, ",") != strings.Join(want, ",") {
+					if pe := provEvents(e.Trace); strings.Join(pe, ",") != strings.Join(want, ",") {
 						got := "nothing"
-						if len(e.Trace) > 0 {
-							got = strings.Join(e.Trace, ",")
+						if len(pe) > 0 {
+							got = strings.Join(pe, ",")
 							if len(got) > 80 {
 								got = got[:80] + "…"
 							}
